@@ -75,7 +75,7 @@ def outcome(fn):
         return ("exc", type(e).__name__, H.family(e))
 
 
-def entries(db, qt, cat, base, other):
+def entries(db, qt, cat, base, other, cur=None):
     """[(entry name, f(unit_string))] - every API entry that takes a unit string (statement's list)."""
     import numpy as np
     from barril.basic.fraction import FractionValue
@@ -152,6 +152,22 @@ def entries(db, qt, cat, base, other):
         ("GetUnitName / caption", lambda u: [Scalar(cat, x, u).GetUnitName(), ObtainQuantity(u, cat).GetUnitCaption(), Scalar(cat, x, u).GetValidUnits()]),
         ("IsValid", lambda u: Scalar(cat, x, u).IsValid()),
     ]
+    if cur is not None:
+        # objects that already *are* in the unit being asked for (the current spelling of it), plain and with a caption on the quantity
+        def own(caption):
+            return ObtainQuantity(cur, cat, caption) if caption else ObtainQuantity(cur, cat)
+
+        for caption in (None, "rate of well A"):
+            tag = " [own unit%s]" % (", captioned quantity" if caption else "")
+            E += [
+                ("Scalar.CreateCopy(unit=u)" + tag, lambda u, caption=caption: Scalar(own(caption), x).CreateCopy(unit=u)),
+                ("Array.CreateCopy(unit=u)" + tag, lambda u, caption=caption: Array(own(caption), [x, 1.0]).CreateCopy(unit=u)),
+                ("FixedArray.CreateCopy(unit=u)" + tag, lambda u, caption=caption: FixedArray(2, own(caption), [x, 1.0]).CreateCopy(unit=u)),
+                ("FractionScalar.CreateCopy(unit=u)" + tag, lambda u, caption=caption: FractionScalar.CreateWithQuantity(own(caption), value=x).CreateCopy(unit=u)),
+                ("Scalar.GetValue(u)" + tag, lambda u, caption=caption: Scalar(own(caption), x).GetValue(u)),
+                ("Scalar.CreateCopy(value, unit=u)" + tag, lambda u, caption=caption: Scalar(own(caption), x).CreateCopy(value=7.0, unit=u)),
+                ("Scalar==Scalar" + tag, lambda u, caption=caption: [Scalar(own(caption), x) == Scalar(cat, x, u), Scalar(cat, x, u) == Scalar(own(caption), x)]),
+            ]
     return E
 
 
@@ -396,7 +412,7 @@ def run(ctx):
                             ctx.count("entry pairs agreeing on a value (spelling given as a str subclass)")
             n_str_sub += 1
             for cat in cat_list:
-                for name, fn in entries(db, qt, cat, base if base != cur else other, other):
+                for name, fn in entries(db, qt, cat, base if base != cur else other, other, cur):
                     ctx.ev()
                     n_entries += 1
                     ol = outcome(lambda: fn(leg))
